@@ -2,7 +2,6 @@ package printer
 
 import (
 	"fmt"
-	"strconv"
 	"strings"
 
 	"reflect"
@@ -122,6 +121,39 @@ func join(str []string, sep string) string {
 		ss = append(ss, s)
 	}
 	return strings.Join(ss, sep)
+}
+
+// quoteString prints s as a GraphQL StringValue: only the escapes the
+// lexer understands (\" \\ \b \f \n \r \t and \uXXXX) are produced.
+func quoteString(s string) string {
+	var b strings.Builder
+	b.WriteByte('"')
+	for _, r := range s {
+		switch r {
+		case '"':
+			b.WriteString(`\"`)
+		case '\\':
+			b.WriteString(`\\`)
+		case '\b':
+			b.WriteString(`\b`)
+		case '\f':
+			b.WriteString(`\f`)
+		case '\n':
+			b.WriteString(`\n`)
+		case '\r':
+			b.WriteString(`\r`)
+		case '\t':
+			b.WriteString(`\t`)
+		default:
+			if r < 0x20 || r == 0x7f {
+				fmt.Fprintf(&b, `\u%04X`, r)
+			} else {
+				b.WriteRune(r)
+			}
+		}
+	}
+	b.WriteByte('"')
+	return b.String()
 }
 
 func wrap(start, maybeString, end string) string {
@@ -375,7 +407,7 @@ var printDocASTReducer = map[string]visitor.VisitFunc{
 	"StringValue": func(p visitor.VisitFuncParams) (string, interface{}) {
 		switch node := p.Node.(type) {
 		case *ast.StringValue:
-			return visitor.ActionUpdate, strconv.Quote(node.Value)
+			return visitor.ActionUpdate, quoteString(node.Value)
 		case map[string]interface{}:
 			return visitor.ActionUpdate, `"` + getMapValueString(node, "Value") + `"`
 		}
